@@ -285,5 +285,84 @@ class Prop(object):
         inner2 = rsig.make(sub, 0x19, 8, wire.subpacket(2, SIG_T.to_bytes(4, 'big'), width=5) + wire.subpacket(26, 'ü'.encode()), b'', {'key': rkeys.public_body(raw), 'subkey': rkeys.public_body(sub)})
         pk, hashed = self._make(wire.subpacket(32, inner2))
         self._check(r, pk, hashed, {'sptype': 32, 'implemented': True, 'critical': False, 'inner': 'non-minimal'}, case, 'embedded signature with non-minimal inner encodings', flips=False)
+        self._embedded_in_key(r, case)
         r.samples.append({'embedded': True})
         return r
+
+    def _embedded_in_key(self, r, case):
+        """The primary-key binding (0x19) a signing subkey makes, carried inside the subkey binding of an imported certificate: its hashed area too is
+        verified as received (unusual encodings stay valid, every bit of it counts)."""
+        import pgpy
+        from pgpy.constants import SignatureType
+        raw, pub = self._ctx()
+        sub = K.raw('ed25519c', K.T0)
+        pbody, sbody = rkeys.public_body(raw), rkeys.public_body(sub)
+        subj = {'key': pbody, 'subkey': sbody}
+        base = rsig.sp_created(SIG_T) + rsig.sp_issuer_fpr(rkeys.fingerprint(sub))
+        variants = [('plain', base), ('five-octet-length', wire.subpacket(2, SIG_T.to_bytes(4, 'big'), width=5) + rsig.sp_issuer_fpr(rkeys.fingerprint(sub))),
+                    ('unknown-flag-bits', base + wire.subpacket(27, b'\x42')), ('boolean-2', base + wire.subpacket(7, b'\x02')),
+                    ('latin1-uri', base + wire.subpacket(26, b'https://ex\xe4mple.org/')), ('unknown-type-five-octet', base + wire.subpacket(100, b'private', width=5)),
+                    ('notation-flags', base + wire.subpacket(20, b'\x80\x00\x00\x01\x00\x03\x00\x01a@bx'))]
+        uid = b'Embedded <embedded@example.org>'
+        selfcert = rsig.make(raw, 0x13, 8, rsig.sp_created(SIG_T) + rsig.sp_issuer_fpr(rkeys.fingerprint(raw)) + wire.subpacket(27, b'\x03'),
+                             rsig.sp_issuer(rkeys.keyid(raw)), {'key': pbody, 'uid': uid})
+        only = case.get('only_emb')
+        for name, inner_hashed in variants:
+            for where in ('unhashed', 'hashed'):
+                key_id = '%s/%s' % (name, where)
+                if only and key_id != only:
+                    continue
+
+                def cert(ih):
+                    inner = rsig.build_body(0x19, 22, 8, ih, rsig.sp_issuer(rkeys.keyid(sub)), inner_sig['left16'], inner_sig['mpis'])
+                    bh = rsig.sp_created(SIG_T) + rsig.sp_issuer_fpr(rkeys.fingerprint(raw)) + wire.subpacket(27, b'\x02') + (rsig.sp_embedded(inner) if where == 'hashed' else b'')
+                    binding = rsig.make(raw, 0x18, 8, bh, rsig.sp_issuer(rkeys.keyid(raw)) + (rsig.sp_embedded(inner) if where == 'unhashed' else b''), subj)
+                    return (rkeys.public_packet(raw) + wire.packet(13, uid) + wire.packet(2, selfcert) + rkeys.public_packet(sub, sub=True) + wire.packet(2, binding))
+                inner_sig = rsig.parse_body(rsig.make(sub, 0x19, 8, inner_hashed, rsig.sp_issuer(rkeys.keyid(sub)), subj))
+                tags = {'embedded_in_key': True, 'inner': name, 'where': where}
+                one = dict(case, only_emb=key_id)
+                label = 'certificate whose subkey binding carries (%s) a primary-key binding with %s hashed area' % (where, name)
+
+                def verdict(blob):
+                    k = pgpy.PGPKey.from_blob(blob)[0]
+                    sk = list(k.subkeys.values())[0]
+                    es = [x for x in A.component_signatures(sk) if x.type == SignatureType.PrimaryKey_Binding]
+                    if len(es) != 1:
+                        return 'no-embedded', None, None
+                    return ('truthy' if k.verify(sk, es[0]) else 'falsy'), es[0], (sk, k)      # (k kept alive: subkeys reach their primary through a weak reference)
+                r.states += 1
+                r.transitions += 2
+                try:
+                    v, es, sk = verdict(cert(inner_hashed))
+                    probs = []
+                    if v != 'truthy':
+                        probs.append('valid embedded signature: %s' % v)
+                    else:
+                        got = bytes(es.hashdata(sk[0]))
+                        if got != rsig.hash_input(0x19, 22, 8, inner_hashed, subj):
+                            probs.append('octets fed to the hash differ from the received hashed region of the embedded signature')
+                except Exception as e:
+                    v, probs = 'error', ['raises %r' % (e,)]
+                r.outcomes['embedded-in-key:' + ('ok' if not probs else 'violation')] += 1
+                if probs:
+                    r.viol('embedded-key', dict(tags, what='valid'), one, label + ': ' + '; '.join(probs))
+                    continue
+                if where != 'unhashed':
+                    continue
+                bad = 0
+                for i in range(len(inner_hashed)):
+                    for bit in range(8):
+                        ih = bytearray(inner_hashed)
+                        ih[i] ^= 1 << bit
+                        r.states += 1
+                        r.transitions += 1
+                        try:
+                            oc = verdict(cert(bytes(ih)))[0]
+                        except Exception:
+                            oc = 'error'
+                        r.outcomes['flip:' + ('truthy' if oc == 'truthy' else 'falsy' if oc in ('falsy', 'no-embedded') else 'error')] += 1
+                        if oc == 'truthy':
+                            bad += 1
+                            if bad <= 2:
+                                r.viol('embedded-key', dict(tags, what='bitflip'), dict(one, flip=[i, bit]),
+                                       '%s: flipping bit %d of octet %d of the embedded signature\'s hashed area still verifies' % (label, bit, i))
